@@ -388,6 +388,56 @@ pub fn plans(prop: &str, tier: &str) -> Vec<Plan> {
     }
 }
 
+/// A plain unit test (public API only, no hooks, no explorer) that replays a history and prints what the
+/// level reports after every step; the C01 invariant is asserted, everything else is printed next to the
+/// violation message for inspection.
+pub fn emit_unit_test(cfg: &LevelCfg, hist: &[u16], message: &str) -> String {
+    let mut t = String::new();
+    t.push_str("// replays a history found by /verif (engine S) against the public API; put into tests/replay.rs of the repository\n");
+    t.push_str(&format!("// finding: {}\n", message.replace('\n', " ")));
+    t.push_str("use pricelevel::{OrderId, OrderType, OrderUpdate, PriceLevel, UuidGenerator};\n#[test]\nfn replay() {\n");
+    t.push_str(&format!("    let level = PriceLevel::new({});\n", cfg.price));
+    t.push_str("    let generator = UuidGenerator::new(uuid::Uuid::parse_str(\"6ba7b810-9dad-11d1-80b4-00c04fd430c8\").unwrap());\n");
+    t.push_str("    let show = |l: &PriceLevel, what: &str| {\n        let orders = l.iter_orders();\n        let (sv, sh): (u128, u128) = orders.iter().fold((0, 0), |a, o| (a.0 + o.visible_quantity() as u128, a.1 + o.hidden_quantity() as u128));\n        println!(\"{what}: visible={} hidden={} count={} listed=[{}]\", l.visible_quantity(), l.hidden_quantity(), l.order_count(), orders.iter().map(|o| o.to_string()).collect::<Vec<_>>().join(\" | \"));\n        assert_eq!((l.visible_quantity() as u128, l.hidden_quantity() as u128, l.order_count()), (sv, sh, orders.len()), \"aggregates != sums over listed orders after {what}\");\n    };\n");
+    let mut level_var = "level".to_string();
+    let mut k = 0;
+    for h in hist {
+        let op = cfg.ops[*h as usize];
+        let name = cfg.op_name(&op);
+        match op {
+            Op::Add(id, tm) => {
+                let o = cfg.make_order(id, tm);
+                t.push_str(&format!("    {level_var}.add_order(\"{o}\".parse::<OrderType<()>>().unwrap());\n"));
+            }
+            Op::Match(q) => {
+                t.push_str(&format!("    let r = {level_var}.match_order({q}, OrderId::from_u64({}), &generator);\n    println!(\"{name} -> remaining={{}} complete={{}} fills={{:?}} filled={{:?}}\", r.remaining_quantity, r.is_complete, r.transactions.as_vec().iter().map(|t| (t.maker_order_id.to_string(), t.quantity)).collect::<Vec<_>>(), r.filled_order_ids);\n", TAKER));
+            }
+            Op::Upd(kind, id) => {
+                let u = cfg.update_of(kind, id);
+                t.push_str(&format!("    let r = {level_var}.update_order(\"{u}\".parse::<OrderUpdate>().unwrap());\n    println!(\"{name} -> {{:?}}\", r.map(|o| o.map(|o| o.to_string())));\n"));
+            }
+            Op::Restore(pth) => {
+                k += 1;
+                let nv = format!("level{k}");
+                let expr = match pth {
+                    Path::FromSnapshot => format!("PriceLevel::from_snapshot({level_var}.snapshot()).unwrap()"),
+                    Path::FromRef => format!("PriceLevel::from(&{level_var}.snapshot())"),
+                    Path::Package => format!("PriceLevel::from_snapshot_package({level_var}.snapshot_package().unwrap()).unwrap()"),
+                    Path::SnapJson => format!("PriceLevel::from_snapshot_json(&{level_var}.snapshot_to_json().unwrap()).unwrap()"),
+                    Path::Serde => format!("serde_json::from_str::<PriceLevel>(&serde_json::to_string(&{level_var}).unwrap()).unwrap()"),
+                    Path::Text => format!("{level_var}.to_string().parse::<PriceLevel>().unwrap()"),
+                    Path::Data => format!("PriceLevel::try_from(pricelevel::PriceLevelData::from(&{level_var})).unwrap()"),
+                };
+                t.push_str(&format!("    let {nv} = {expr};\n"));
+                level_var = nv;
+            }
+        }
+        t.push_str(&format!("    show(&{level_var}, \"{name}\");\n"));
+    }
+    t.push_str("}\n");
+    t
+}
+
 fn hist_names<S: Subject>(s: &S, h: &[u16]) -> Vec<String> {
     h.iter().map(|o| s.op_name(*o)).collect()
 }
@@ -490,6 +540,7 @@ pub fn run_into(report: &mut Report, prop: &str, tier: &str, share: f64) {
                     "alphabet": subject.cfg.name,
                     "history": h,
                     "history_names": names,
+                    "unit_test": emit_unit_test(&subject.cfg, h, msg),
                 }),
             );
         }
